@@ -1194,10 +1194,15 @@ def run_scenario(scenario):
 
     got = [r[1] for r in out["results"] if r[0] == 0]
     if layer in (2, 3):
-        # plaintext comes out in order; all of it when no ciphertext went missing below and no error was reported
+        # The scenario reads the TLS stream to its end.  On the repaired protocol nothing may be missing: every plaintext
+        # byte the peer wrote comes out, in order, whatever was cancelled on the way (an SSLError or an early EOF after a
+        # cancelled receive is a failure).  On the pre-fix protocol (F4) lost ciphertext legitimately breaks the session.
         plain = b"".join(got)
-        complete = plain == out["sent_plain"] or rec.returned != rec.delivered or any(r[0] in (3, 4) for r in out["results"])
-        packets_ok = 1 if out["sent_plain"].startswith(plain) and complete else 0
+        if detect_fixed():
+            packets_ok = 1 if plain == out["sent_plain"] else 0
+        else:
+            complete = plain == out["sent_plain"] or rec.returned != rec.delivered or any(r[0] in (3, 4) for r in out["results"])
+            packets_ok = 1 if out["sent_plain"].startswith(plain) and complete else 0
     else:
         packets_ok = 1 if got == frames_of(rec.returned) else 0
     labels = [lab for lab in rec.labels if lab[0] not in (L_RECVPKT, L_TLSOP)]
